@@ -48,6 +48,8 @@ def leaves(T):
         ("EnumType:2", lambda: T.EnumType(frozenset(["x", "y"]), "{x, y}")),
         ("BoundaryType:closed", lambda: B("int", 0, 10, True, True)),
         ("BoundaryType:open", lambda: B("float", 0.0, 1.0, False, False)),
+        ("BoundaryType:finite-like-inf", lambda: B("float", 0.0, 5.0, True, True)),
+        ("BoundaryType:finite-like-inf-excl", lambda: B("float", 0.0, 5.0, True, False)),
         ("BoundaryType:inf-incl", lambda: B("float", 0.0, B.INFINITY, True, True)),
         ("BoundaryType:inf-excl", lambda: B("float", 0.0, B.INFINITY, True, False)),
         ("BoundaryType:neginf", lambda: B("float", B.NEGATIVE_INFINITY, 1.0, False, True, "in the range (negative_infinity, 1]")),
